@@ -46,7 +46,7 @@ INVARIANT SetOK
 CHECK_DEADLOCK FALSE
 """
 
-REPORT_ONLY = ("box", "p", "desc")      # float / text fields of random observations: not read by TLC
+REPORT_ONLY = ("box", "p", "desc", "bits")      # float / text fields of random observations: not read by TLC
 MAX_CONFIRM = 6                          # examples confirmed (and reported) per violation class
 
 
@@ -89,12 +89,21 @@ def box_key(d, kind, region):
 
 def judge_boxes(chk, obs, chunk_size):
     """-> {class key: [single-point vector, ...]} of rejected real observations (not yet confirmed)"""
-    bad = chk.validate("BoxTrace", [strip(o) for o in obs], timeout=2400, chunk_size=chunk_size)
+    stripped = [strip(o) for o in obs]
+    full = {id(t): o for t, o in zip(stripped, obs)}
+    bad = chk.validate("BoxTrace", stripped, timeout=2400, chunk_size=chunk_size)
     found = {}
     for e, why in bad:
+        e = full[id(e)]
         for kind, region, p in parts_of(why):
             if kind == "overlap":
-                found.setdefault("interval-overlap", []).append(dict(t="ovl", prs=[p]))
+                v = dict(t="ovl", prs=[p])
+                # the pair was drawn as floats (p are the ranks of its end points): replay the same floats
+                want = 1 if (p[2] <= p[1] and p[0] <= p[3]) else 0
+                ks = [k for k, q in enumerate(e["prs"]) if q == p and e["res"][k] != want and k < len(e.get("bits", []))]
+                if ks:
+                    v["bits"] = [e["bits"][ks[0]]]
+                found.setdefault("interval-overlap", []).append(v)
             elif e["ev"] == "boxf":
                 found.setdefault(box_key(e["d"], kind, region) + ":float", []).append(dict(t="boxf", idx=e["idx"], point=p[0]))
             else:
@@ -118,8 +127,13 @@ def confirm_boxes(chk, found, where):
         for v, o in zip(first, obs):
             if v["t"] == "ovl":
                 key = "%s:%s" % (cls, v["prs"][0])
+                ends = v["prs"][0]
+                if v.get("bits"):
+                    import struct
+                    ends = [struct.unpack("<d", struct.pack("<Q", int(t)))[0] for t in v["bits"][0]]
+                    key += ":float"
                 desc = "REAL Interval%s.Overlap(Interval%s) = %s, but the closed intervals %s a value" % (
-                    v["prs"][0][:2], v["prs"][0][2:], bool(o["res"][0]), "do not share" if o["res"][0] else "share")
+                    list(ends[:2]), list(ends[2:]), bool(o["res"][0]), "do not share" if o["res"][0] else "share")
             else:
                 q = v["q"] or 1
                 key = "%s:q=%d:lo=%s:hi=%s:p=%s" % (cls, q, v["lo"], v["hi"], v["pts"][0])
